@@ -28,6 +28,7 @@ type scriptLine struct {
 	uses  []string // symbols referenced by the defining term / the fact (for slicing)
 	guard []string // symbols of the reachability guard of an assumption
 	done  bool
+	lemma bool // a proved lemma assumed here: a valid fact, left out of reachability (cover) queries
 }
 
 func NewScript() *Script {
@@ -103,6 +104,11 @@ func (sc *Script) Name(prefix, sort, term string) string {
 	n := sc.Fresh(prefix, sort)
 	sc.lines = append(sc.lines, scriptLine{kind: "assert", text: fmt.Sprintf("(assert (= %s %s))", n, term), uses: append(termSymbols(term), n), done: true})
 	return n
+}
+
+// AssertLemma adds a separately proved, universally valid fact.
+func (sc *Script) AssertLemma(term string) {
+	sc.lines = append(sc.lines, scriptLine{kind: "assert", text: fmt.Sprintf("(assert %s)", term), lemma: true})
 }
 
 func (sc *Script) Assert(term string) {
